@@ -145,14 +145,19 @@ def emit (w : World) (o : Obj) : World :=
 
 /-- The unlocked part of a write: `data` is copied into the block, the block reference taken by
 `Put` is dropped. -/
-def copy (w : World) (id data : Nat) : Option World :=
+def copyCore (w : World) (id data : Nat) : Option (Obj × World) :=
   match w.obj? id with
   | none => none
   | some o =>
     if o.copied || !o.mine then none else
     let w1 := w.updObj id fun o => { o with data := data, copied := true }
-    let w2 := (w1.emit { o with data := data, copied := true }).unpin o.gid
-    some { w2 with shadow := if o.upload then (o.key, data) :: w.shadow else w.shadow }
+    let w2 := w1.emit { o with data := data, copied := true }
+    some (o, { w2 with shadow := if o.upload then (o.key, data) :: w.shadow else w.shadow })
+
+def copy (w : World) (id data : Nat) : Option World :=
+  match w.copyCore id data with
+  | some (o, w') => some (w'.unpin o.gid)
+  | none => none
 
 /-- The copy of a refresh: the data is what a (validated) read of the source location yields. -/
 def refreshCopy (w : World) (id slot off size : Nat) : Option (Nat × World) :=
@@ -163,12 +168,6 @@ def refreshCopy (w : World) (id slot off size : Nat) : Option (Nat × World) :=
     | some w' => some (src.data, w')
     | none => none
   | _, _ => none
-
-/-- The writer is abandoned before it issued any write (source failed at once). -/
-def abandon (w : World) (id : Nat) : Option World :=
-  match w.obj? id with
-  | none => none
-  | some o => if o.copied then none else some (w.unpin o.gid)
 
 inductive Fin
   | ok (w : World)
